@@ -55,7 +55,7 @@ theorem add_null_left_of_link (v : StyleVariant) (a : Style) (ha : Reachable v a
     simp [add, hn, eq, Style.null, h1, h2, h3, h4, this]
 
 /-- **The null style is a left identity up to `==` for every constructible style**, once an empty
-link is stored as `None` (pending_fixes/C06-empty-link-is-no-link.diff).  On rich 9.10.0 as found this
+link is stored as `None` (fix c566893, pending_fixes/C06-empty-link-is-no-link.diff).  On rich 9.10.0 as found this
 is false at `Style(link="")`: `old_empty_link_breaks_identity`. -/
 theorem add_null_left (v : StyleVariant) (hv : v.emptyLink = false) (a : Style) (ha : Reachable v a) :
     eq (add v Style.null a) a = true :=
